@@ -915,6 +915,13 @@ func init() {
 			d.G.SetWeight(tx.TypeBurnToken, 15)
 			g := &c22Gen{s: s, d: d, r: Rng(ctx.Seed, "C22gen", idx), mon: mon, idx: idx}
 			for b := 0; b < sc.Blocks && !s.Dead && !s.Stopped; b++ {
+				// process restarts between blocks (lead: added after seed C22-m1 - the coin counter and the registry must be what the
+				// disk holds, not what the process remembers): the ids handed out after a restart are judged like all others
+				if b > 0 && g.r.Intn(7) == 0 {
+					s.Restart()
+					ctx.Res.Count("restarts", 1)
+					ctx.Res.Seen("process restarted between registry transactions")
+				}
 				g.block(0.55, 10)
 			}
 			ctx.Res.Count("blocks", s.H-s.W.InitialHeight+1)
